@@ -460,6 +460,16 @@ Walk:
 
 			// No next static segment found, but maybe some params or wildcard child
 			if idx < 0 {
+				// Tsr recommendation: remove the extra trailing slash. The current leaf matches everything but the
+				// final slash; record it now, since the walk may descend into a wildcard child from here.
+				if !tsr && current.isLeaf() && len(path)-charsMatched == 1 && path[charsMatched] == slashDelim {
+					tsr = true
+					n = current
+					if !lazy {
+						copyWithResize(c.tsrParams, c.params)
+					}
+				}
+
 				// We have at least a param child which is has higher priority that catch-all
 				if current.paramChildIndex >= 0 {
 					// We have also a wildcard child, save it for later evaluation
